@@ -279,23 +279,36 @@ def check(ctx, rep):
         if not encs:
             continue  # not a URL-based protocol
         problems = []
-        # decoder of the selector: the unquote whose result (through locals) becomes self.selector
-        sel_decs = []
-        for c, t in decs:
-            for n in ast.walk(h.node):
-                if isinstance(n, ast.Assign) and any(norm(tg) == "self.selector" for tg in n.targets) and any(x is c for x in ast.walk(n.value)):
-                    sel_decs.append((c, t))
+        # decoder of the selector: what self.selector holds when the handler is looked up, on every path that gets there
+        from ..paths import Walker as _W
+        from ..structure import attr_provenance
+
+        UNQ = ("unquote", "unquote_plus", "unquote_to_bytes")
+        sel_decs, layer_counts = [], set()
+        seen_prov = set()
+        for pth in _W(prog, ctx.resolver, merge_loops=True).run(h, P):
+            reached = [e for e in pth.events if e.kind == "call" and isinstance(e.node.func, ast.Attribute) and e.node.func.attr == "gethandler"]
+            if not reached:
+                continue
+            prov = attr_provenance(pth, "self.selector", h, prog, ctx.resolver, P, upto=lambda ev: ev is reached[0])
+            if prov is None or norm(prov) in seen_prov:
+                continue
+            seen_prov.add(norm(prov))
+
+            def depth(n):
+                here = 1 if isinstance(n, ast.Call) and (dotted(n.func) or "").split(".")[-1] in UNQ else 0
+                return here + max([depth(c) for c in ast.iter_child_nodes(n)] or [0])
+
+            layer_counts.add(depth(prov))
+            for x in ast.walk(prov):
+                if isinstance(x, ast.Call) and (dotted(x.func) or "").split(".")[-1] in UNQ:
+                    ext = "urllib.parse." + (dotted(x.func) or "").split(".")[-1]
+                    sel_decs.append((x, type("T", (), {"ext": ext})()))
         if not sel_decs:
             problems.append("handle() does not percent-decode the selector although links are percent-encoded")
         for c, t in sel_decs:
             derr = _const(_kw(c, "errors", 2)) or "replace"
             denc = (_const(_kw(c, "encoding", 1)) or "utf-8").lower().replace("-", "")
-            inner = c.args[0] if c.args else None
-            if isinstance(inner, ast.Call) and (dotted(inner.func) or "").split(".")[-1].startswith("unquote"):
-                problems.append("the selector is percent-decoded twice")
-            if isinstance(inner, ast.Attribute) and norm(inner) == "self.selector":
-                # self.selector = unquote(self.selector): fine once; twice if another assignment does it again
-                pass
             for ec, et in encs:
                 eenc, eerr, safe = encoder_codec(ec, enc_funcs.get(id(ec), ro))
                 if (eenc, eerr) != (denc, derr):
@@ -309,10 +322,10 @@ def check(ctx, rep):
                     problems.append("quote_plus is decoded with unquote (a '+' in a name turns into a space or vice versa)")
                 if t.ext == "urllib.parse.unquote_plus" and et.ext != "urllib.parse.quote_plus":
                     problems.append("unquote_plus decodes '+' as space but links are encoded with quote")
-        n_assign_decode = sum(1 for n in ast.walk(h.node) if isinstance(n, ast.Assign) and any(norm(tg) == "self.selector" for tg in n.targets)
-                              and any(isinstance(x, ast.Call) and (dotted(x.func) or "").split(".")[-1].startswith("unquote") for x in ast.walk(n.value)))
-        if n_assign_decode > 1:
+        if any(k > 1 for k in layer_counts):
             problems.append("more than one decoding layer is applied to the selector")
+        if 0 in layer_counts and sel_decs:
+            problems.append("a path reaches the handler lookup with a selector that was not percent-decoded")
         problems.extend(helper_problems)
         rep.add("R05a", f"{P.qualname}: encode/decode agree", not problems, ctx.where(ro), "; ".join(sorted(set(problems))),
                 key=f"R05a|{P.qualname}")
